@@ -370,17 +370,18 @@ def _construct_import_statement(
 
 
 @processing.fix
-def remove_unused_imports(source: str) -> str:
+def remove_unused_imports(source: str, preserve: Collection[str] = frozenset()) -> str:
     """Remove unused imports from source code.
 
     Args:
         source (str): Python source code
+        preserve (Collection[str], optional): Names that other files import from this one
 
     Returns:
         str: Source code, with added imports removed
     """
     root = core.parse(source)
-    unused_imports = _get_unused_imports(root)
+    unused_imports = {name for name in _get_unused_imports(root) if name not in preserve}
     completely_unused_imports, partially_unused_imports = _get_unused_imports_split(
         root, unused_imports
     )
@@ -759,7 +760,7 @@ def undefine_unused_variables(source: str, preserve: Collection[str] = frozenset
             yielded.add(name)
 
     # `_` is an ordinary variable for a program that reads it (`_ = gettext.gettext; _("text")`)
-    if any(core.walk(root, ast.Name(id="_", ctx=(ast.Load, ast.Del)))):
+    if "_" in preserve or any(core.walk(root, ast.Name(id="_", ctx=(ast.Load, ast.Del)))):
         return
 
     for node in core.walk(
@@ -953,11 +954,12 @@ def _is_pointless_string(node: ast.AST) -> bool:
 
 
 @processing.fix
-def delete_pointless_statements(source: str) -> str:
+def delete_pointless_statements(source: str, preserve: Collection[str] = frozenset()) -> str:
     """Delete pointless statements with no side effects from code
 
     Args:
         source (str): Python source code.
+        preserve (Collection[str], optional): Names to preserve
 
     Returns:
         str: Modified code
@@ -965,7 +967,9 @@ def delete_pointless_statements(source: str) -> str:
     ast_tree = core.parse(source)
     safe_callables = parsing.safe_callable_names(ast_tree)
     # Binding `_` is no side effect by convention, unless the program reads `_`
-    underscore_is_read = any(core.walk(ast_tree, ast.Name(id="_", ctx=(ast.Load, ast.Del))))
+    underscore_is_read = "_" in preserve or any(
+        core.walk(ast_tree, ast.Name(id="_", ctx=(ast.Load, ast.Del)))
+    )
     binds_underscore = (
         ast.Name(id="_", ctx=ast.Store),
         ast.FunctionDef(name="_"),
